@@ -26,7 +26,7 @@ inductive Ev
   | deq (buf : Nat) (r : DeqRes)
   | qstat (size enq deq drop head tail : Nat) (empty full : Bool)
   | qclear
-  | wnew (w : Nat)
+  | wnew (w : Nat) (finished : Bool)             -- finished: the new thread has already run to its end (race mode)
   | wstate (w : Nat) (s : WState)
   | wrelease (w : Nat) (did : Bool)
   | wstep (w : Nat) (r : Option Bool)          -- none = noop, some true = exited, some false = still running
@@ -48,6 +48,13 @@ inductive Ev
   | skip (why : String)
   deriving Repr, DecidableEq
 
+/-- how the new worker thread is scheduled relative to its creator -/
+inductive NewMode
+  | hold     -- parked at hook point 1 (has not stored RUNNING)
+  | run      -- runs into the scripted procedure and parks there
+  | race     -- a procedure that returns at once; the thread runs to its END inside the creator's pthread_create call
+  deriving Repr, DecidableEq
+
 inductive Cmd
   | post (p k d : Nat)
   | wakeup
@@ -58,7 +65,7 @@ inductive Cmd
   | deq (buf : Nat)
   | qstat
   | qclear
-  | wnew (w : Nat) (hold : Bool)
+  | wnew (w : Nat) (mode : NewMode)
   | wstate (w : Nat)
   | wrelease (w : Nat)
   | wstep (w : Nat)
@@ -179,10 +186,13 @@ def stepE (s : World) : Cmd → World × List Ev
     | none, _ => (s, [.skip "no-queue"])
     | some _, some _ => (s, [.skip "writer-blocked"])
     | some q, none => ({ s with q := some q.clear }, [.qclear])
-  | .wnew w hold =>
+  | .wnew w mode =>
     match s.getW w with
     | some _ => (s, [.skip "worker-exists"])
-    | none => (s.setW w (if hold then Wk.create else Wk.create.threadStep false), [.wnew w])
+    | none => (s.setW w (match mode with
+        | .hold => Wk.create
+        | .run => Wk.create.threadStep false
+        | .race => Wk.createSeq true createProg {}), [.wnew w (decide (mode = .race))])
   | .wstate w =>
     match s.getW w with
     | some k => if k.destroyed then (s, [.skip "destroyed"]) else (s, [.wstate w k.state])
@@ -277,7 +287,7 @@ def render : Ev → String
   | .deq b r => s!"deq {b} " ++ (match r with | .none => "none" | .msg m => s!"{m.p} {m.v} {m.size}" | .crash => "crash")
   | .qstat a b c d h t e f => s!"qstat {a} {b} {c} {d} {h} {t} {if e then 1 else 0} {if f then 1 else 0}"
   | .qclear => "qclear"
-  | .wnew w => s!"wnew {w} ok"
+  | .wnew w fin => s!"wnew {w} {if fin then "finished" else "ok"}"
   | .wstate w st => s!"wstate {w} " ++ (match st with | .stopped => "STOPPED" | .running => "RUNNING")
   | .wrelease w d => s!"wrelease {w} {if d then "ok" else "noop"}"
   | .wstep w r => s!"wstep {w} " ++ (match r with | none => "noop" | some true => "exited" | some false => "running")
